@@ -24,6 +24,10 @@ AxisOK(e, P(_, _)) ==
     /\ Len(e.res.q) = NL(e)
     /\ \A t \in 0..(NL(e) - 1) : ~Special(e.res.q[t + 1]) /\ P(Lane(e, t), e.res.q[t + 1])
 AxisPairOK(e) == e.res.bits = e.res.lane_bits
+(* the same agreement at the level of values (C06, C07): relative difference in units of 2^-20, NaN agreeing with NaN *)
+AxisRelOK(e) == \A t \in DOMAIN e.res.rel : Abs(e.res.rel[t]) <= 4
+IsAxisStat(e) == e.stat \in {"wsum_axis", "wmean_axis", "wvar_axis", "wstd_axis"}
+PairOnly(e) == Has(e, "pair_only") /\ e.pair_only
 
 SummOK(e) ==
     /\ e.out = "ok"
@@ -139,7 +143,9 @@ EntOK(e) ==
           e.H.q * Pw(2, 20 - e.qe) <= LnT[Len(e.a)] + 4 * (Len(e.a) + 2) * Pw(2, 20 - e.qe)              \* H <= ln n
 
 EventOK(e) ==
-    CASE e.ev = "summ" -> (IF PROP = "C18" THEN SummPairOK(e) ELSE SummOK(e))
+    CASE e.ev = "summ" -> (IF PROP = "C18" THEN SummPairOK(e)
+                           ELSE IF PairOnly(e) THEN e.out = "ok" /\ AxisRelOK(e)
+                           ELSE SummOK(e) /\ (IsAxisStat(e) => AxisRelOK(e)))
       [] e.ev = "corr" -> CorrOK(e)
       [] e.ev = "dev"  -> DevOK(e)
       [] e.ev = "devnan" -> DevNanOK(e)
